@@ -72,4 +72,8 @@ PROPS = {
         "level": "exploration", "quick_s": 30, "thorough_s": 600, "thorough_seeds": 4,
         "rule": "a process with one multiple / parallel-multiple intermediate catch event over 1..4 signal/message definitions inside a loop (re-armed up to 3 times); event histories of 0..9 events including non-matching ones, delivered at quiescent moments interleaved with task answers; oracle: listener counting model in the token game + bounds computed from the engine's own EventObservedTrace/LeaveTrace + sequential cross-check of logic.CatchEventSatisfier over the same history; distinct = schedule hash; non-trivial = an event delivered and a context switch",
     },
+    "C06": {
+        "level": "exploration", "quick_s": 30, "thorough_s": 600, "thorough_seeds": 4,
+        "rule": "event-based gateway with 2..3 alternatives (signal / message catch events, each followed by its own task and end event), optionally behind a task; event plans: non-empty sequences (length 1..4) over the competing events plus a stranger, delivered one at a time at quiescent moments (exact model) or from separate goroutines at the same moment once all alternatives are armed; later deliveries of losing events included; oracle: exactly one branch task, only for a delivered event, one determination, completion, every ConsumeEvent returns; distinct = schedule hash; non-trivial = a context switch",
+    },
 }
